@@ -147,6 +147,15 @@ func (conn *Conn) Close() {
 	}
 }
 
+// setDataConn replaces the data socket of the session, releasing the previous
+// one (a passive port the client never used would otherwise stay open).
+func (conn *Conn) setDataConn(socket DataSocket) {
+	if conn.dataConn != nil {
+		conn.dataConn.Close()
+	}
+	conn.dataConn = socket
+}
+
 func (conn *Conn) upgradeToTLS() error {
 	log.Debugf("%s: Upgrading connection to TLS", conn.sessionid)
 	tlsConn := tls.Server(conn.conn, conn.tlsConfig)
